@@ -351,7 +351,7 @@ func propLookupVector(t *rapid.T, c *curve) {
 				if o.panicked != nil {
 					t.Fatalf("%s: verifier panicked: %v", test, o.panicked)
 				}
-				rep.Case(test, fs+" g'=1", true, "plookup_vector", "forgery:degenerate_generator(plookup)", "forged", "rejected")
+				rep.Case(test, fs+" g'=1", true, "plookup_vector", "forgery:degenerate_generator(plookup)", "forgery:degenerate_generator(plookup)@"+c.name, "forged", "rejected")
 			} else {
 				rep.Case(test, fs+" g'=1", false, "plookup_vector", "forgery:degenerate_generator(plookup)|construction_unavailable")
 			}
@@ -506,7 +506,7 @@ func propLookupTables(t *rapid.T, c *curve) {
 				if o.panicked != nil {
 					t.Fatalf("%s: verifier panicked: %v", test, o.panicked)
 				}
-				rep.Case(test, fs+" splice", true, "plookup_tables", "false_stmt|lookup_proof_in_unrelated_table", "forged", "rejected")
+				rep.Case(test, fs+" splice", true, "plookup_tables", "false_stmt|lookup_proof_in_unrelated_table", "spliced_lookup_proof@"+c.name, "forged", "rejected")
 			} else {
 				rep.Case(test, fs+" splice", false, "plookup_tables", "folding_model_unavailable")
 			}
@@ -521,7 +521,8 @@ func propLookupTables(t *rapid.T, c *curve) {
 		}
 	}
 	inner := lookupExpect("foldedProof.", uint64(d))
-	sc := &scheme{name: "plookup_tables", test: test, env: c.mutEnv(),
+	sc := &scheme{name: "plookup_tables", test: test, env: c.mutEnv(), tag: c.name,
+		tagLabels: map[string]bool{"plookup_tables|ts[*]:point|random": true, "plookup_tables|permutationProof:struct|other": true},
 		verify: func(p reflect.Value) error { return c.lookupTablesVerify(p) },
 		expect: func(s site, kind string, orig, mut reflect.Value) (expectation, string) {
 			switch {
